@@ -456,11 +456,17 @@ def run(repo: Repo, tier: str) -> Report:
     sbody = body_wo_doc(sub)
     int_arm = None
     dek_ret = None
-    for s in sbody:
-        if isinstance(s, ast.If) and norm_stmt(s.test) == f"isinstance({opar}, int)" and len(s.body) == 1 and isinstance(s.body[0], ast.Return):
-            int_arm = dekad_arg(s.body[0].value)
-        elif isinstance(s, ast.Return):
-            dek_ret = s.value
+    # which return belongs to which arm is decided by the canonical guard chain (if/else, guard clause, swapped branches alike)
+    from ..rules import guard_chain as _gchain
+    for r_ in [n_ for n_ in ast.walk(sub) if isinstance(n_, ast.Return) and n_.value is not None]:
+        pol = [p_ for t_, p_ in _gchain(sub, r_, canonical=True) if t_ == f"isinstance({opar}, int)"]
+        if pol == [True]:
+            try:
+                int_arm = dekad_arg(r_.value)
+            except AnalysisError:
+                int_arm = None
+        elif pol == [False]:
+            dek_ret = r_.value
     ok1 = ok2 = False
     if int_arm is not None and dek_ret is not None and "__add__" in adds:
         subi = Normaliser({opar: Nn}).norm(_subst_attr(int_arm, "self", "_dkd", "A"))
